@@ -15,6 +15,22 @@ def prog_open_write(t, nwrites, with_await=False, disable_buf=True, big=False):
         p.append("A")
     return p
 
+def prog_open_send(t, nsends, with_await=False, disable_buf=True):
+    """a proxied stream as the relays use it: open, then Stream::send_data (the outbound channel + forwarding task)"""
+    p = ["O"]
+    if disable_buf:
+        p.append("B0")
+    p += ["S:" + payload(t, k) for k in range(nsends)]
+    if with_await:
+        p.append("A")
+    return p
+
+def pump_prog(n):
+    return ["P"] * n
+
+def is_pump_prog(p):
+    return bool(p) and all(x == "P" for x in p)
+
 def render(mode, progs, sched):
     toks = [mode]
     for p in progs:
